@@ -716,15 +716,23 @@ func reviseSeverity(err error) error {
 		return nil
 	}
 	if e, ok := err.(maybeTaskFatalErr); ok {
-		return e.error
-	}
-	if e, ok := err.(*errors.Error); ok && e != nil && e.Severity == errors.Fatal {
+		err = e.error
+	} else if e, ok := err.(*errors.Error); ok && e != nil && e.Severity == errors.Fatal {
 		// The error is fatal to this attempt to run the task but not fatal to
 		// the task overall, e.g. a fatal unavailable error when trying to read
 		// dependencies from other machines. We downgrade the error, so that the
 		// evaluator will retry.
 		e.Severity = errors.Unknown
 		return e
+	}
+	if errors.IsTemporary(err) {
+		// Temporary errors (e.g. returned by application code) make the
+		// evaluator resubmit the task, a bounded number of times. They must
+		// not reach the caller as temporary errors: it would retry the
+		// Worker.Run call itself (RetryCall), without bound.
+		e := *errors.Recover(err)
+		e.Severity = errors.Unknown
+		return &e
 	}
 	return err
 }
